@@ -102,7 +102,9 @@ type Cluster struct {
 	// PrepareScript decides the outcome of PREPARE frames without a token (re-prepares); nil = ok
 	PrepareScript func(a *Attempt) Outcome
 	OnConn        func(c *Conn)
-	SlowStart     time.Duration
+	// OptionsDelay, if set, returns how long the answer to an OPTIONS frame (a heartbeat) is held back
+	OptionsDelay func(c *Conn) time.Duration
+	SlowStart    time.Duration
 
 	mu        sync.Mutex
 	nodes     map[string]*Node
@@ -125,7 +127,18 @@ type Node struct {
 	prepared map[string]prepared
 	listed   bool
 	up       bool
-	muted    bool // the node reads but never answers (heartbeat silence)
+	muted    bool                      // the node reads but never answers (heartbeat silence)
+	maxVer   primitive.ProtocolVersion // 0 = the cluster's MaxVersion
+}
+
+// SetNodeMaxVersion makes one node accept only protocol versions up to v (0 = follow the cluster), as a node
+// restarted on an older release would.
+func (c *Cluster) SetNodeMaxVersion(ip string, v primitive.ProtocolVersion) {
+	if n := c.Node(ip); n != nil {
+		n.mu.Lock()
+		n.maxVer = v
+		n.mu.Unlock()
+	}
 }
 
 // SetListed adds a running node to / removes it from the peers table without touching its listener.
@@ -500,18 +513,40 @@ func (cn *Conn) handle(a *Attempt) {
 		return
 	}
 	hdr := &a.Header
-	if !c.versionOK(hdr.Version) {
+	cn.N.mu.Lock()
+	nodeMax := cn.N.maxVer
+	cn.N.mu.Unlock()
+	if !c.versionOK(hdr.Version) || (nodeMax != 0 && hdr.Version > nodeMax) {
 		v := hdr.Version
 		reply := *hdr
 		if c.MaxVersion != 0 && v > c.MaxVersion {
 			reply.Version = c.MaxVersion
+		}
+		if nodeMax != 0 && v > nodeMax {
+			reply.Version = nodeMax
 		}
 		cn.send(&reply, &message.ProtocolError{ErrorMessage: fmt.Sprintf("Invalid or unsupported protocol version (%d)", v)}, 0, nil)
 		return
 	}
 	switch m := a.Frame.Body.Message.(type) {
 	case *message.Options:
-		cn.send(hdr, &message.Supported{Options: map[string][]string{"CQL_VERSION": {"3.4.5"}, "COMPRESSION": {"lz4", "snappy"}}}, 0, nil)
+		sup := &message.Supported{Options: map[string][]string{"CQL_VERSION": {"3.4.5"}, "COMPRESSION": {"lz4", "snappy"}}}
+		if c.OptionsDelay != nil && cn.Started {
+			if d := c.OptionsDelay(cn); d > 0 {
+				h := *hdr
+				c.T.Emit("BackendHeartbeatHeld", "b", cn.ID, "host", cn.N.IP, "bstream", int(h.StreamId), "ms", d.Milliseconds())
+				go func() {
+					select {
+					case <-time.After(d):
+						cn.emitIfOpen("BackendHeartbeatLate", "b", cn.ID, "host", cn.N.IP, "bstream", int(h.StreamId))
+						cn.send(&h, sup, 0, nil)
+					case <-cn.closed:
+					}
+				}()
+				return
+			}
+		}
+		cn.send(hdr, sup, 0, nil)
 	case *message.Startup:
 		comp := strings.ToLower(m.Options["COMPRESSION"])
 		if c.SlowStart > 0 {
